@@ -96,6 +96,7 @@ func c14NewEnv(cfg []c14WfCfg, ace int, buf, exec []int) *c14Env {
 		raw.CodeObject = co
 		raw.WG = e.wgs[c.wg].WorkGroup
 		wf := wavefront.NewWavefront(raw)
+		e.cu.VerifNewWavefront(wf) // the register accessor wrapWG gives every wavefront (scalar-load returns write through it)
 		wf.WG = e.wgs[c.wg]
 		wf.WG.Wfs = append(wf.WG.Wfs, wf)
 		wf.SIMDID = i % 4
